@@ -57,6 +57,7 @@ type GenCfg struct {
 	ProgOnly   bool // only programmatic (executable) commands
 	ByTagPct   int  // percent of commands declared by tag (default 50)
 	CmdPct     int  // percent of commands (below max depth) having sub-commands (default 70)
+	NoBig      bool // never scale the bounds up
 }
 
 // uniformInt draws an (almost exactly) uniform integer in [0, n). rapid's own
@@ -343,6 +344,9 @@ func (g *declGen) opt(ns *nameSets, nsPrefix string) Opt {
 	}
 	if cfg.Choices && pct(t, "hasChoices", 12) {
 		n := rapid.IntRange(1, 3).Draw(t, "nchoices")
+		if pct(t, "manyChoices", 8) {
+			n += 8
+		}
 		for i := 0; i < n; i++ {
 			o.Choices = append(o.Choices, genValidText(t, k, o.Base))
 		}
@@ -459,6 +463,9 @@ func (g *declGen) positional() *Positional {
 	t := g.t
 	p := &Positional{Field: g.field("Pos")}
 	n := rapid.IntRange(0, 3).Draw(t, "npos")
+	if pct(t, "manyPos", 6) {
+		n += rapid.IntRange(2, 5).Draw(t, "morePos")
+	}
 	for i := 0; i < n; i++ {
 		pa := PosArg{Field: g.field("A"), Kind: rapid.SampledFrom([]Kind{KString, KString, KString, KInt, KFloat64, KUpper, KUint8, KDuration, KTri, KInt64}).Draw(t, "posKind")}
 		if pct(t, "posName", 50) {
@@ -571,7 +578,25 @@ func (g *declGen) cmd(c *Cmd, depth int) {
 	}
 }
 
+// bigCfg returns a copy of cfg with larger bounds (more options per group, deeper
+// group and command nesting, wider fan-out): used for a fraction of the cases so
+// that size- and depth-dependent behaviour is visited too.
+func bigCfg(cfg *GenCfg) *GenCfg {
+	c := *cfg
+	c.MaxOpts += 7
+	c.MaxGroups += 2
+	c.NestGroups += 2
+	if c.Depth > 0 {
+		c.Depth++
+		c.Fanout += 3
+	}
+	return &c
+}
+
 func genDecl(t *rapid.T, cfg *GenCfg) *Decl {
+	if !cfg.NoBig && pct(t, "bigDeclaration", 8) {
+		cfg = bigCfg(cfg)
+	}
 	d := &Decl{Root: Cmd{ID: "root", Name: "app"}}
 	for _, o := range cfg.ParserOpts {
 		if rapid.Bool().Draw(t, "popt") {
@@ -973,7 +998,11 @@ func genArgv(t *rapid.T, d *Decl, cfg *ArgvCfg) []string {
 	g := &argvGen{t: t, d: d, cfg: cfg, r: newTracker(d)}
 	for level := 0; level < 6; level++ {
 		c := g.r.ctx
-		n := rapid.IntRange(0, cfg.MaxItems).Draw(t, "nitems")
+		maxItems := cfg.MaxItems
+		if level == 0 && pct(t, "longVector", 6) {
+			maxItems += 10
+		}
+		n := rapid.IntRange(0, maxItems).Draw(t, "nitems")
 		for i := 0; i < n; i++ {
 			g.item()
 		}
